@@ -49,10 +49,10 @@ func c17LinksExec(c c17Links, x *pbt.Ctx) error {
 	}
 	var skip, direct []ck.SupDesc
 	for v := 0; v < c.A; v++ {
-		skip = append(skip, ck.SupDesc{Validator: v, Source: 2})
+		skip = append(skip, ck.SupDesc{Validator: v, Source: 1}) // selector 1 = two checkpoints back = genesis
 	}
 	for v := c.N - c.B; v < c.N; v++ {
-		direct = append(direct, ck.SupDesc{Validator: v, Source: 1})
+		direct = append(direct, ck.SupDesc{Validator: v, Source: 0}) // selector 0 = the direct parent checkpoint
 	}
 	cp1, cp2 := c.Epoch, 2*c.Epoch
 	if c.SkipLast {
